@@ -4,6 +4,7 @@ import XzVerif.Proofs.Prefix
 import XzVerif.Proofs.LazyDec2
 import XzVerif.Proofs.Fuel
 import XzVerif.Proofs.LazyXz
+import XzVerif.Proofs.LazyDec
 /-
   C05 — A truncated stream is never mistaken for a complete one (.xz, LZMA2, .lzma).
 
@@ -173,5 +174,39 @@ theorem C05_lazy_xz_prefix_never_clean (cfgCap : Nat) (single : Bool) (s : Xz.St
     Fuel.xz_read_fuel _ _ _ _
   have hc := (LazyXz.eof_complete cfgCap single _ x h lens hf he).1
   exact Xz.xz_prefix_rejected false cfgCap single s hok hcap hpad k hk hc
+
+open LazyDec in
+/-- helper: the lazy classic reader never reports `io.EOF` on an input on which the batch reader does not end cleanly -/
+theorem lazy_lzma_not_clean (cfgCap : Nat) (inp : ByteArray) (hb : (Lzma1.read (effCap cfgCap) inp).status ≠ .eof)
+    (l : LSt) (h : newReader cfgCap inp = .ok l) (lens : List Nat) : lastStat (readSeq l lens) ≠ .eof :=
+  fun he => hb (LazyDec.eof_complete cfgCap inp l h lens (Fuel.lzma1_read_fuel _ _) he).1
+
+open LazyDec in
+/-- classic .lzma, unknown size with end marker: no proper prefix is ever reported as a clean end by the lazy ring-level
+    reader model, under any schedule (reader capacity not above the header's, as for the batch theorem) -/
+theorem C05_lazy_lzma_prefix_never_clean_unknown (cfgCap : Nat) (hdr : Lzma1.Header) (ops : List RawOp)
+    (hlc : hdr.props.lc ≤ 8) (hlp : hdr.props.lp ≤ 4) (hpb : hdr.props.pb ≤ 4) (hdc : hdr.dictCap < 2 ^ 32)
+    (hcfg : effCap cfgCap ≤ max hdr.dictCap 4096)
+    (hops : OpsOk {} { out := .empty, dictStart := 0, cap := max (effCap cfgCap) (max hdr.dictCap 4096) } ops)
+    (hsize : hdr.size = none) (k : Nat) (hk : k < (Lzma1.encode hdr ops.toArray true).size)
+    (l : LSt) (h : newReader cfgCap ((Lzma1.encode hdr ops.toArray true).extract 0 k) = .ok l) (lens : List Nat) :
+    lastStat (readSeq l lens) ≠ .eof :=
+  lazy_lzma_not_clean cfgCap _
+    (Lzma1.lzma_prefix_rejected_unknown (effCap cfgCap) hdr ops hlc hlp hpb hdc hcfg hops hsize k hk) l h lens
+
+open LazyDec in
+/-- classic .lzma, known size, with or without end marker -/
+theorem C05_lazy_lzma_prefix_never_clean_known (cfgCap : Nat) (hdr : Lzma1.Header) (ops : List RawOp) (marker : Bool)
+    (hlc : hdr.props.lc ≤ 8) (hlp : hdr.props.lp ≤ 4) (hpb : hdr.props.pb ≤ 4) (hdc : hdr.dictCap < 2 ^ 32)
+    (hcfg : effCap cfgCap ≤ max hdr.dictCap 4096)
+    (hops : OpsOk {} { out := .empty, dictStart := 0, cap := max (effCap cfgCap) (max hdr.dictCap 4096) } ops)
+    (hsize : hdr.size = some
+      (finalH {} { out := .empty, dictStart := 0, cap := max (effCap cfgCap) (max hdr.dictCap 4096) } ops).out.size)
+    (h63 : (finalH {} { out := .empty, dictStart := 0, cap := max (effCap cfgCap) (max hdr.dictCap 4096) } ops).out.size
+      < 2 ^ 63) (k : Nat) (hk : k < (Lzma1.encode hdr ops.toArray marker).size)
+    (l : LSt) (h : newReader cfgCap ((Lzma1.encode hdr ops.toArray marker).extract 0 k) = .ok l) (lens : List Nat) :
+    lastStat (readSeq l lens) ≠ .eof :=
+  lazy_lzma_not_clean cfgCap _
+    (Lzma1.lzma_prefix_rejected_known (effCap cfgCap) hdr ops marker hlc hlp hpb hdc hcfg hops hsize h63 k hk) l h lens
 
 end Props.C05
